@@ -27,6 +27,7 @@ def _variants(year, base, assign, r, kinds):
     return out
 
 
+_FIRST_SEEN = {}
 QUICK_SCHEDS = ['reversed', 'linerev', 'hash1']
 ALL_SCHEDS = ['reversed', 'formrev', 'linerev', 'hash1', 'hash2', 'hash3', 'hash4']
 
@@ -103,6 +104,17 @@ def monitor(pid, year, base, assign, r, asked):
     elif pid == 'C05':
         add(monitors.stored_equals_supplied(r))
         c0 = r.canon()
+        # the result must not depend on what this process solved before: every 8th node re-solves the base return of
+        # its tree and compares it with the first time this worker process solved it
+        import zlib
+        if zlib.crc32(repr(sorted(assign.items())).encode()) % 8 == 0:
+            rb, _ = e3.run_return(year, base, {})
+            cnt['solves'] += 1
+            kb = (year, base.name)
+            if kb not in _FIRST_SEEN:
+                _FIRST_SEEN[kb] = rb.canon()
+            elif _FIRST_SEEN[kb] != rb.canon():
+                viols.append(('process-history-dependent', f'the base return {base.name} solved again later in the same process gives another outcome', None))
         order0 = tuple(a.line for a in r.log)
         for kind, rr in _variants(year, base, assign, r, (ALL_SCHEDS + ['file', 'file-reversed'] + ['file:' + k for k in ALL_SCHEDS]) if not assign
                                   else _pick(QUICK_SCHEDS, assign, 2) + _pick(['file', 'file-reversed', 'file:reversed', 'file:hash1'], assign, 1)):
